@@ -29,6 +29,7 @@ def cases(ctx: Ctx) -> list[dict]:
     if not ctx.quick:
         base += [(3, {"dephasing_rate": 6.0}, 2), (3, {"relaxation_rate": 3.0, "dephasing_rate": 2.0}, 2), (4, {"relaxation_rate": 4.0, "depolarizing_rate": 1.0}, 2),
                  (3, "leak", 3), (3, "eff2", 2), (4, {"dephasing_rate": 8.0}, 2)]
+    base.append((3, "spam", 2))
     for i, (n, noise, dim) in enumerate(base):
         if noise == "eff2":
             m = [[[0.0, 0.0], [rng.uniform(0.3, 1.0), 0.0]], [[rng.uniform(0.2, 0.8), 0.0], [0.0, 0.0]]]
@@ -40,11 +41,14 @@ def cases(ctx: Ctx) -> list[dict]:
                 z[a][b] = [1.0, 0.0]
                 return z
             noise = {"eff_noise_rates": [6.0, 1.0, 2.0], "eff_noise_opers": [unit(2, 0), unit(2, 1), unit(1, 2)], "with_leakage": True}
-        cs.append({"id": i + 1, "n": n, "noise": noise, "dim": dim, "duration": 100, "dt": 10.0, "amp": rng.uniform(5.0, 9.0), "det": rng.uniform(-2.0, 2.0)})
+        spam = noise == "spam"
+        if spam:
+            noise = {"relaxation_rate": 3.0, "state_prep_error": 0.3}
+        cs.append({"id": i + 1, "n": n, "noise": noise, "dim": dim, "spam": spam, "duration": 100, "dt": 10.0, "amp": rng.uniform(5.0, 9.0), "det": rng.uniform(-2.0, 2.0)})
     return cs
 
 
-def _setup(case: dict):
+def _setup(case: dict, n_traj: int = 1):
     import pulser
     from emu_base import PulserData
     from emu_mps import MPSConfig
@@ -56,9 +60,12 @@ def _setup(case: dict):
     seq = seqs.build_sequence(spec)
     nm = noise_model(case["noise"])
     times = [0.25, 0.5, 0.75, 1.0]
-    cfg = MPSConfig(dt=case["dt"], log_level=100, noise_model=nm, observables=make_observables([{"k": "occupation", "times": times}, {"k": "correlation_matrix", "times": times}]),
-                    optimize_qubit_ordering=False, precision=1e-6)
-    data = next(iter(PulserData(sequence=seq, config=cfg, dt=case["dt"]).get_sequences()))
+    cfg = MPSConfig(dt=case["dt"], log_level=100, noise_model=nm, observables=make_observables([{"k": "occupation", "times": times}, {"k": "correlation_matrix", "times": times}, {"k": "state", "times": times}]),
+                    optimize_qubit_ordering=False, precision=1e-6, n_trajectories=n_traj)
+    pd = PulserData(sequence=seq, config=cfg, dt=case["dt"])
+    if n_traj > 1:
+        return seq, cfg, list(pd.get_sequences()), times
+    data = next(iter(pd.get_sequences()))
     return seq, cfg, data, times
 
 
@@ -69,27 +76,72 @@ def traj_worker(job: dict) -> dict:
 
     out = {"case": job["case"]["id"], "seeds": job["seeds"], "error": None, "occ": [], "ok_range": [], "finished": []}
     try:
-        seq, cfg, data, times = _setup(job["case"])
-        for s in job["seeds"]:
+        spam = bool(job["case"].get("spam"))
+        if spam:
+            import numpy as _np
+            _np.random.seed(job["seeds"][0] % (2**31))
+            seq, cfg, datas, times = _setup(job["case"], len(job["seeds"]))
+        else:
+            seq, cfg, data, times = _setup(job["case"])
+            datas = [data] * len(job["seeds"])
+        out["norm_ok"], out["ref"], out["skipped"] = [], [], 0
+        for s, data in zip(job["seeds"], datas):
             random.seed(s)
             torch.manual_seed(s)
+            if spam and sum(1 for b in data.bad_atoms if not b) < 2:
+                out["skipped"] += 1     # fewer than two well-prepared atoms: emu-mps refuses (known finding of C25)
+                continue
             try:
                 res = MPSBackend._run_from_sequence_data(data, cfg)
                 occ = np.array([np.asarray(v.detach().numpy() if hasattr(v, "detach") else v, float) for v in res.occupation])
                 cor = np.array([np.real(np.asarray(v.detach().numpy() if hasattr(v, "detach") else v)) for v in res.correlation_matrix])
                 rng_ok = bool((occ >= -1e-9).all() and (occ <= 1 + 1e-9).all() and (cor >= -1e-9).all() and (cor <= 1 + 1e-9).all())
+                norms = [float(st.norm()) for st in res.state]
+                out["norm_ok"].append(bool(all(abs(x - 1.0) <= 1e-8 for x in norms)))
                 out["occ"].append(occ.tolist())
                 out["ok_range"].append(rng_ok)
                 out["finished"].append(len(res.get_result_times("occupation")) == len(times))
+                if spam:
+                    out["ref"].append(_ref_for(job["case"], seq, data, times).tolist())
             except BaseException as e:  # noqa
                 out["occ"].append(None)
                 out["ok_range"].append(True)
+                out["norm_ok"].append(True)
                 out["finished"].append(False)
                 out["error"] = f"{type(e).__name__}: {e}"
     except BaseException as e:  # noqa
         import traceback
         out["error"] = "setup: " + f"{type(e).__name__}: {e}" + traceback.format_exc()[-800:]
     return out
+
+
+def _ref_for(case: dict, seq, data, times) -> "np.ndarray":
+    """Master-equation occupations for ONE state-preparation draw: badly prepared atoms are absent (no drive, no interaction)."""
+    from harness.gen import seqs
+    from harness.ref import dense
+
+    n, dim = case["n"], case["dim"]
+    T = [float(t) for t in data.target_times]
+    om, de, ph = (np.real(x.detach().numpy()).copy() for x in (data.omega, data.delta, data.phi))
+    U = np.asarray(data.interaction_matrix(1e18).detach().numpy(), float).copy()
+    bad = [i for i, b in enumerate(data.bad_atoms) if b]
+    for i in bad:
+        om[:, i] = 0.0
+        de[:, i] = 0.0
+        ph[:, i] = 0.0
+        U[i, :] = 0.0
+        U[:, i] = 0.0
+    ops = [np.asarray(L.detach().numpy()) for L in data.lindblad_ops]
+    good = [i for i in range(n) if i not in bad]
+    Ls = [dense.embed(L, j, n, dim) for j in good for L in ops]
+    v = dense.basis_state([0] * n, dim)
+    rho = np.outer(v, v.conj())
+    out = {0.0: dense.occupation(rho, n, dim)}
+    for k in range(om.shape[0]):
+        H = dense.hamiltonian(om[k], de[k], ph[k], U, kind="rydberg", dim=dim)
+        rho = dense.evolve_lindblad(rho, H, Ls, T[k + 1] - T[k])
+        out[round(T[k + 1] / T[-1], 9)] = dense.occupation(rho, n, dim)
+    return np.array([out[round(t, 9)] for t in times])
 
 
 def reference(case: dict) -> tuple[np.ndarray, np.ndarray]:
@@ -150,21 +202,31 @@ def run(ctx: Ctx) -> None:
         if any(e.startswith("setup") for e in errs):
             raise MachineryError(f"case {c['id']} setup failed: {errs[0]}")
         occs, events = [], [{"ev": "case", "n": ntraj}]
+        refs_all: list = []
+        skipped = 0
         i = 0
         for r in mine:
-            for occ, okr, fin in zip(r["occ"], r["ok_range"], r["finished"]):
+            refs_all.extend(r.get("ref", []))
+            skipped += r.get("skipped", 0)
+            for occ, okr, fin, nok in zip(r["occ"], r["ok_range"], r["finished"], r.get("norm_ok", [True] * len(r["occ"]))):
                 i += 1
-                events.append({"ev": "traj", "i": i, "finished": bool(fin and occ is not None), "inRange": bool(okr), "normalised": True})
+                events.append({"ev": "traj", "i": i, "finished": bool(fin and occ is not None), "inRange": bool(okr), "normalised": bool(nok)})
                 if occ is not None:
                     occs.append(np.array(occ))
         ctx.case(("case", c["id"], c["n"], str(sorted(c["noise"].keys())), c["dim"]), sample={"atoms": c["n"], "noise": sorted(c["noise"].keys()), "dim": c["dim"], "trajectories": len(occs)})
         if errs:
             ctx.violation(f"traj:raised:dim{c['dim']}:{errs[0].split(':')[0]}", f"a noisy emu-mps trajectory raised: {errs[0][:300]}", {"case": c})
             continue
+        events[0]["n"] = ntraj - skipped
         arr = np.array(occs)            # (traj, times, atoms)
+        if c.get("spam"):
+            # every trajectory has its own state-preparation draw: compare with the average of the per-draw references
+            ref = np.array(refs_all).mean(axis=0)
+            sysd = np.full(ref.shape, 2e-3 + 1e-2)
+        else:
+            ref, sysd = reference(c)
         mean = arr.mean(axis=0)
         sd = arr.std(axis=0, ddof=1)
-        ref, sysd = reference(c)
         worst = 0.0
         for k in range(mean.shape[0]):
             # variance of a [0,1]-valued occupation is at most mu(1-mu) (Bhatia-Davis): valid however skewed the trajectory
